@@ -119,6 +119,21 @@ func (o *indexOracle) check(n *simNode, ev string) bool {
 		cur[i] = hh.hostinfo
 		holders[hh.hostinfo] = true
 	}
+	// every pending handshake that was given an index holds it: the index is registered, to that handshake
+	for _, a := range sortedAddrs(hs.vpnIps) {
+		hh := hs.vpnIps[a]
+		if hh == nil || hh.hostinfo == nil || hh.hostinfo.localIndexId == 0 {
+			continue
+		}
+		if reg := hs.indexes[hh.hostinfo.localIndexId]; reg != hh {
+			who := "nobody"
+			if reg != nil {
+				who = fmt.Sprint("the handshake for ", reg.hostinfo.vpnAddrs)
+			}
+			rc.Fail("pending-index-not-owned", "node %d after %s: the pending handshake for %v carries local index %d, which is registered to %s", n.idx, ev, a, hh.hostinfo.localIndexId, who)
+			return false
+		}
+	}
 	// one hostinfo must not sit under two different indexes
 	byHost := map[*HostInfo]uint32{}
 	for _, i := range sortedU32(cur) {
@@ -143,6 +158,15 @@ func (o *indexOracle) check(n *simNode, ev string) bool {
 				return false
 			}
 			claimed[ri] = h
+			// ... and a relay index a live tunnel uses is registered, to that tunnel
+			if reg := hm.Relays[ri]; reg != h {
+				who := "nobody"
+				if reg != nil {
+					who = fmt.Sprint("the tunnel to ", reg.vpnAddrs)
+				}
+				rc.Fail("relay-index-not-registered", "node %d after %s: the tunnel to %v uses relay index %d, which is registered to %s", n.idx, ev, h.vpnAddrs, ri, who)
+				return false
+			}
 		}
 	}
 	for _, ri := range sortedU32(hm.Relays) {
